@@ -58,3 +58,9 @@ add('C15','model_checking','exhaustive enumeration of message x declared-fee var
  'Exact fee accounting against a reference replica for succeeding and failing messages, malformed fee coin lists, payers with exactly the fee, and after the next block.',_chain_note)
 add('C16','model_checking','exhaustive wire-level re-encoding generator validated by the real decoder + differential replicas of the real app',
  'Every generated byte string that the real decoder maps to the same signed content (and the identical bytes) is resubmitted in the same / next / later block; the replica must end with the same app hash as one that never received the copy.',_chain_note+' Re-encodings are those of the generator alphabet (DESIGN §4 C16), current feature set.')
+add('C23','model_checking','exhaustive enumeration of pre-state x edit x signer, differential replicas of the real app with field-by-field record comparison',
+ 'Node and application records before/after every edit-stake combination are compared field by field against the documented immutability rules.',_chain_note)
+add('C24','model_checking','explicit-state BFS over the real PocketCoreApp with a per-block shadow lifecycle automaton',
+ 'After every block of every explored history the unstaking lifecycle of every node and application is compared with a shadow automaton (session-boundary exit, due-time payout, amount, recipient, once).',_chain_note)
+add('C25','model_checking','explicit-state BFS over the real PocketCoreApp with a per-block slashing/jailing monitor',
+ 'After every block: burn == stake removed == supply decrease, below-minimum => jailed and queued, unjail acceptance == reference predicate on the pre-block state; consensus-set, pool and supply invariants on final states.',_chain_note)
